@@ -3,6 +3,7 @@
 //!
 //!   lmconform record <PROP> <out.ndjson> [--seed N] [--thorough]   impl -> spec: run drivers, log events
 //!   lmconform replay <PROP> <file>                                 spec -> impl: step TLC behaviours
+mod c01;
 mod c04;
 mod c05;
 mod c19;
@@ -40,6 +41,7 @@ fn main() {
             match prop {
                 "C19" => c19::record(&mut rec, seed, thorough),
                 "C04" => c04::record(&mut rec, seed, thorough),
+                "C01" => c01::record(&mut rec, seed, thorough),
                 "C05" => c05::record(&mut rec, seed, thorough),
                 _ => {
                     eprintln!("unknown property {}", prop);
